@@ -22,6 +22,9 @@ TNext ==
        [] e.k = "rreconnect" -> e.ok = TRUE /\ UNCHANGED vars
        \* a Dial that was waiting for the endpoint when it closed comes back, promptly
        [] e.k = "rdialret" -> e.prompt = TRUE /\ e.r # "hung" /\ UNCHANGED vars
+       \* Close raced with arriving connections: with the peers still connected and silent, nothing of the closed
+       \* socket is left running in the library (no handshake worker, no parked upgrade)
+       [] e.k = "rrace" -> e.leaked = 0 /\ UNCHANGED vars
        [] e.k = "rhsdrop" -> e.closed = TRUE /\ UNCHANGED vars
        [] e.k = "rcensus" -> e.n = 0 /\ UNCHANGED vars
        [] OTHER -> FALSE
